@@ -219,3 +219,53 @@ def rule_pl_capacity(ctx, rep, config="c-lib"):
         rep.violation("R16-cap", "pl_create/capacity", "the parser list is allocated with %r bytes, fewer than the %r bytes of 2 * toks_len + 1 sets: an input whose every token "
                       "(and the end marker) is accepted only after an `error' shift appends 2 * toks_len + 1 sets, the last one behind the array" % (sz, need),
                       where=c.where(), witness=[c.where()])
+
+
+def rule_total_loss(ctx, rep, config="c-lib"):
+    rep.rule("R16-recover", "error recovery always has a candidate: yaep_read_grammar adds the rule `$S : error $eof' for every grammar (the creation of a rule of the axiom "
+                            "whose first symbol is the `error' terminal is not control dependent on what rules the user's grammar has).  Without it error_recovery can "
+                            "end without any recovery state; it then leaves *start == *stop == -1 and build_pl reads toks[-1]")
+    from .r5 import _controlling_conditions
+    p = ctx.prog(config)
+    f = p.fn("yaep_read_grammar")
+    rep.cover(p, [f.name, "error_recovery", "build_pl"])
+    # rule_new_start (grammar->axiom, ..) followed by rule_new_symb_add (grammar->term_error)
+    sites = []
+    for c in f.calls():
+        if c.callee != "rule_new_start":
+            continue
+        lp = loaded_from(f, c.args[0])
+        if lp is None or lp.last_field() != "grammar.axiom":
+            continue
+        adds = [a for a in f.calls() if a.callee == "rule_new_symb_add" and f.inst_dominates(c, a)]
+        adds = [a for a in adds if not any(o is not c and o.callee == "rule_new_start" and f.inst_dominates(c, o) and f.inst_dominates(o, a) for o in f.calls())]
+        if adds:
+            first = min(adds, key=lambda a: (len([b for b in adds if f.inst_dominates(b, a)])))
+            fp = loaded_from(f, first.args[0])
+            if fp is not None and fp.last_field() == "grammar.term_error":
+                sites.append(c)
+    if not sites:
+        rep.violation("R16-recover", "yaep_read_grammar/total-loss-rule", "no rule `$S : error ...' is added by yaep_read_grammar: an input that matches no user `error' rule has no "
+                      "recovery at all", where=f.where())
+        return
+    c = sites[0]
+    user = []
+    for (cc, pol) in _controlling_conditions(f, c.block.name):
+        # conditions about the user's rules (loop over the start symbol's rules / the rule found)
+        blk = cc.block.name
+        desc = None
+        for o in cc.ops:
+            lp = loaded_from(f, o)
+            if lp is not None and (lp.last_field() or "").startswith(("rule.", "symb.u")):
+                desc = lp.last_field()
+            oi = f.inst(strip_casts(f, o))
+            if oi is not None and oi.op == "phi" and oi.d.get("var") == "rule":
+                desc = "the rule found by the search over the start symbol's rules"
+        if desc:
+            user.append((cc, desc))
+    if user:
+        rep.violation("R16-recover", "yaep_read_grammar/total-loss-rule", "the rule `$S : error $eof' is added depending on %s: a grammar whose start symbol has its own rule starting "
+                      "with `error' gets no such rule, and an input on which that rule cannot recover (e.g. the empty input for `S : error \';\'') has no recovery at all -- "
+                      "error_recovery returns -1/-1 and build_pl reads toks[-1]" % user[0][1], where=c.where(), witness=[user[0][0].where(), c.where()])
+    else:
+        rep.ok("R16-recover", "yaep_read_grammar/total-loss-rule", sample={"rule_added_at": c.where()})
